@@ -10,7 +10,12 @@ What is modelled, branch by branch:
     Flush implies WriteHeader(200); the header map stays live (shared with the wrappers). A panic is an
     explicit outcome: `panicked` is sticky and every later call is a no-op (Go unwinds the stack, nothing
     further reaches the writer).
-  * handler = arbitrary list of `Op` (Header().Set / Header().Del / WriteHeader n / Write bytes / Flush-if-Flusher).
+  * transport: `Client.server` — a real net/http server treats WriteHeader(1xx, except 101) as an informational
+    response: it is sent at once (`info`) and fixes nothing; httptest.ResponseRecorder treats it as the final status.
+  * handler = arbitrary list of `Op` (Header().Set / Header().Del / WriteHeader n / Write bytes / Flush-if-Flusher /
+    panic). A panic freezes the client's writer (Go unwinds through Middleware, which has no recover: no validation,
+    no flush, no ErrFunc). Calls listed after a `panic` do not exist in Go; the model lets them update the abandoned
+    wrapper's private fields, which nothing reads any more (the middleware returns on `panicked` first).
   * `Strict` — strictResponseWrapper: WriteHeader records the first status only; Write records 200 when none
     was recorded and buffers; Header() is the client's map; no http.Flusher (the handler's type assertion
     fails, Flush is a no-op); flushBodyContents forwards the recorded status only when one was recorded,
@@ -42,7 +47,9 @@ def hget (h : Hdr) (k : String) : Option String := (h.find? (fun p => p.1 == k))
 
 /-- what the client-side http.ResponseWriter has received -/
 structure Client where
-  status   : Option Nat := none   -- fixed by the first WriteHeader (explicit or implied)
+  server   : Bool := false        -- transport: real net/http server (true) / httptest.ResponseRecorder (false)
+  status   : Option Nat := none   -- fixed by the first final WriteHeader (explicit or implied)
+  info     : List Nat := []       -- informational responses already on the wire (real server only)
   body     : Bytes := []
   hdr      : Hdr := []            -- live header map, shared with the wrappers
   sent     : Hdr := []            -- snapshot taken when the status was fixed
@@ -53,11 +60,23 @@ structure Client where
 /-- net/http checkWriteHeaderCode -/
 def validCode (n : Nat) : Bool := decide (100 ≤ n) && decide (n ≤ 999)
 
+/-- net/http (*response).WriteHeader: `code >= 100 && code <= 199 && code != StatusSwitchingProtocols` is written
+out immediately as an informational response and does not set wroteHeader -/
+def isInfo (n : Nat) : Bool := decide (100 ≤ n) && decide (n ≤ 199) && n != 101
+
+def Client.init (server : Bool) : Client := { server := server }
+
 def Client.writeHeader (c : Client) (n : Nat) : Client :=
   if c.panicked then c else
   match c.status with
   | some _ => c
-  | none => if validCode n then { c with status := some n, sent := c.hdr } else { c with panicked := true }
+  | none =>
+    if !validCode n then { c with panicked := true }
+    else if c.server && isInfo n then { c with info := c.info ++ [n] }
+    else { c with status := some n, sent := c.hdr }
+
+/-- the handler (or a callback) panics: nothing further reaches this writer -/
+def Client.abort (c : Client) : Client := { c with panicked := true }
 
 def Client.write (c : Client) (bs : Bytes) : Client :=
   if c.panicked then c else
@@ -82,6 +101,7 @@ inductive Op
   | writeHeader (n : Nat)
   | write (bs : Bytes)
   | flush
+  | panic
   deriving DecidableEq, Repr
 
 /-- the handler run directly against the client's writer -/
@@ -91,6 +111,7 @@ def direct (c : Client) : Op → Client
   | .writeHeader n => c.writeHeader n
   | .write bs => c.write bs
   | .flush => c.flush
+  | .panic => c.abort
 
 def runDirect (c : Client) (ops : List Op) : Client := ops.foldl direct c
 
@@ -98,20 +119,25 @@ def runDirect (c : Client) (ops : List Op) : Client := ops.foldl direct c
 def hdrStep (c : Client) : Op → Client
   | .setHdr k v => c.setHdr k v
   | .delHdr k => c.delHdr k
+  | .panic => c.abort
   | _ => c
 
-/-- the status the handler's calls fix: the first WriteHeader's code, 200 when a Write comes first; with
-`flushCounts` a Flush fixes 200 as well (raw net/http writer), without it Flush is ignored (a wrapper that is
-not an http.Flusher) -/
-def firstStatus (flushCounts : Bool) : List Op → Option Nat
+/-- the status the handler's calls fix: the first WriteHeader's code — on a real server (`server`) informational
+codes fix nothing and are skipped —, 200 when a Write comes first; with `flushCounts` a Flush fixes 200 as well
+(raw net/http writer), without it Flush is ignored (a wrapper that is not an http.Flusher) -/
+def firstStatus (server flushCounts : Bool) : List Op → Option Nat
   | [] => none
-  | .writeHeader n :: _ => some n
+  | .writeHeader n :: ops => if server && isInfo n then firstStatus server flushCounts ops else some n
   | .write _ :: _ => some 200
-  | .flush :: ops => if flushCounts then some 200 else firstStatus flushCounts ops
-  | _ :: ops => firstStatus flushCounts ops
+  | .flush :: ops => if flushCounts then some 200 else firstStatus server flushCounts ops
+  | _ :: ops => firstStatus server flushCounts ops
 
-/-- the status the handler wrote (none: it never called WriteHeader or Write) -/
-def wroteStatus (ops : List Op) : Option Nat := firstStatus false ops
+/-- the status the wrappers record: the code of the first WriteHeader call whatever it is (none: the handler
+never called WriteHeader or Write) -/
+def wroteStatus (ops : List Op) : Option Nat := firstStatus false false ops
+
+/-- the status the handler wrote, by net/http's reading of its calls on the given transport -/
+def handlerStatus (server : Bool) (ops : List Op) : Option Nat := firstStatus server false ops
 
 /-- all bytes the handler passed to Write, in order -/
 def written : List Op → Bytes
@@ -136,6 +162,7 @@ def Strict.step (w : Strict) : Op → Strict
     let w1 := if w.headerWritten then w else { w with status := 200, headerWritten := true }
     { w1 with buf := w1.buf ++ bs }
   | .flush => w
+  | .panic => { w with client := w.client.abort }
 
 def Strict.run (w : Strict) (ops : List Op) : Strict := ops.foldl Strict.step w
 
@@ -164,6 +191,7 @@ def Warn.step (w : Warn) : Op → Warn
     let w1 := if w.headerWritten then w else w.writeHeader 200
     { w1 with client := w1.client.write bs, buf := w1.buf ++ bs }
   | .flush => { w with client := w.client.flush }
+  | .panic => { w with client := w.client.abort }
 
 def Warn.run (w : Warn) (ops : List Op) : Warn := ops.foldl Warn.step w
 
@@ -200,6 +228,8 @@ structure Env where
   reqOK : Bool
   /-- verdict of ValidateResponse for (status, header map, body) -/
   respOK : Nat → Hdr → Bytes → Bool
+  /-- the client's side of this request: behind a real net/http server, or an httptest.ResponseRecorder -/
+  server : Bool := false
 
 structure Outcome where
   handlerRan : Bool
@@ -214,8 +244,9 @@ model of `ValidateRequest` (KinModel/Request.lean, property C07) on the matched 
 location, request body, under the validator's `Options`. The middleware hands `&v.options` to ValidateRequest;
 ValidationHandler hands `Options{AuthenticationFunc}` (default flags). -/
 def envOf (routeFound : Bool) (o : Request.Opts) (op : Request.Op) (declared auth : String → Bool)
-    (respOK : Nat → Hdr → Bytes → Bool) : Env :=
-  { routeFound := routeFound, reqOK := (Request.validateRequest o op declared auth).isOk, respOK := respOK }
+    (respOK : Nat → Hdr → Bytes → Bool) (server : Bool := false) : Env :=
+  { routeFound := routeFound, reqOK := (Request.validateRequest o op declared auth).isOk, respOK := respOK,
+    server := server }
 
 /-- an operation that declares nothing itself (no own security list, no parameters, no body) in a document
 with the given top-level security requirements -/
@@ -226,27 +257,61 @@ def bareOp (docSec : List Request.Requirement) : Request.Op :=
 def validatedStatus (n : Nat) : Nat := if n == 0 then 200 else n
 
 def middleware (cfg : Cfg) (env : Env) (ops : List Op) : Outcome :=
+  let c0 := Client.init env.server
   if !env.routeFound then
-    { handlerRan := false, client := runDirect {} (cfg.errOps .cannotFindRoute),
+    { handlerRan := false, client := runDirect c0 (cfg.errOps .cannotFindRoute),
       errCalls := [.cannotFindRoute], logs := [.route] }
   else if !env.reqOK then
-    { handlerRan := false, client := runDirect {} (cfg.errOps .requestInvalid),
+    { handlerRan := false, client := runDirect c0 (cfg.errOps .requestInvalid),
       errCalls := [.requestInvalid], logs := [.request] }
   else if cfg.strict then
-    let w := Strict.run {} ops
-    if env.respOK (validatedStatus w.status) w.client.hdr w.buf then
+    let w := Strict.run { client := c0 } ops
+    if w.client.panicked then   -- the handler panicked: Middleware is unwound, nothing was flushed
+      { handlerRan := true, client := w.client, errCalls := [], logs := [] }
+    else if env.respOK (validatedStatus w.status) w.client.hdr w.buf then
       { handlerRan := true, client := w.flushOut, errCalls := [], logs := [] }
     else
       { handlerRan := true, client := runDirect w.client (cfg.errOps .responseInvalid),
         errCalls := [.responseInvalid], logs := [.response] }
   else
-    let w := Warn.run {} ops
+    let w := Warn.run { client := c0 } ops
     if w.client.panicked then
       { handlerRan := true, client := w.client, errCalls := [], logs := [] }
     else if env.respOK (validatedStatus w.status) w.client.hdr w.buf then
       { handlerRan := true, client := w.client, errCalls := [], logs := [] }
     else
       { handlerRan := true, client := w.client, errCalls := [], logs := [.response] }
+
+/-! ### NewValidator and its options
+
+`NewValidator(router, options...)` builds the struct with the two default callbacks and applies the options
+in order; each option function assigns exactly one field (table `ValidatorConfig`). `ω` is the type of the
+`Options` value (what ValidateRequest / ValidateResponse are told to check). -/
+
+inductive VOpt (ω : Type)
+  | onErr (f : ErrCode → List Op)
+  | onLog
+  | strict (b : Bool)
+  | validationOptions (o : ω)
+
+structure Setup (ω : Type) where
+  strict : Bool
+  errOps : ErrCode → List Op
+  customLog : Bool
+  options : ω
+
+def Setup.default {ω : Type} (zero : ω) : Setup ω :=
+  { strict := false, errOps := defaultErrOps, customLog := false, options := zero }
+
+def applyOpt {ω : Type} (s : Setup ω) : VOpt ω → Setup ω
+  | .onErr f => { s with errOps := f }
+  | .onLog => { s with customLog := true }
+  | .strict b => { s with strict := b }
+  | .validationOptions o => { s with options := o }
+
+def newValidator {ω : Type} (zero : ω) (opts : List (VOpt ω)) : Setup ω := opts.foldl applyOpt (Setup.default zero)
+
+def Setup.cfg {ω : Type} (s : Setup ω) : Cfg := { strict := s.strict, errOps := s.errOps }
 
 /-! ### ValidationHandler -/
 
@@ -271,10 +336,10 @@ structure VOutcome where
   encCalls : List ReqFail
   deriving DecidableEq, Repr
 
-def vhandler (encOps : ReqFail → List Op) (fail : ReqFail) (ops : List Op) : VOutcome :=
+def vhandler (encOps : ReqFail → List Op) (fail : ReqFail) (ops : List Op) (server : Bool := false) : VOutcome :=
   match fail with
-  | .none => { handlerRan := true, client := runDirect {} ops, encCalls := [] }
-  | f => { handlerRan := false, client := runDirect {} (encOps f), encCalls := [f] }
+  | .none => { handlerRan := true, client := runDirect (Client.init server) ops, encCalls := [] }
+  | f => { handlerRan := false, client := runDirect (Client.init server) (encOps f), encCalls := [f] }
 
 /-! ### Specification (from the property text; independent of the wrappers) -/
 
@@ -293,35 +358,51 @@ def ValidCodes (ops : List Op) : Prop := ∀ n, Op.writeHeader n ∈ ops → val
 def validCodesB (ops : List Op) : Bool :=
   ops.all (fun o => match o with | .writeHeader n => validCode n | _ => true)
 
+/-- the handler does not panic -/
+def NoPanic (ops : List Op) : Prop := Op.panic ∉ ops
+
+def panics (ops : List Op) : Bool := ops.contains .panic
+
+/-- Exclusion class of finding F-C14-2: behind a real server the handler sends an informational (1xx) response.
+Both wrappers take the first WriteHeader code for the final status. -/
+def opInfo : Op → Bool
+  | .writeHeader n => isInfo n
+  | _ => false
+
+def informational (server : Bool) (ops : List Op) : Bool := server && ops.any opInfo
+
 /-- the header map after the handler's calls -/
 def finalHdr (ops : List Op) : Hdr := (ops.foldl hdrStep {}).hdr
 
 /-- the response the handler wrote — its status (200 when it never said otherwise), the headers it set and
 all its body bytes — validates -/
 def respValid (env : Env) (ops : List Op) : Bool :=
-  env.respOK ((wroteStatus ops).getD 200) (finalHdr ops) (written ops)
+  env.respOK ((handlerStatus env.server ops).getD 200) (finalHdr ops) (written ops)
 
 structure SpecOut where
   handlerRan : Bool
   seen : Seen
   errCalls : List ErrCode
-  /-- whether the client's writer may have been driven into a panic (only by the callback's or, in non-strict
-  mode, the handler's own invalid WriteHeader code — never by the middleware) -/
+  /-- whether the client's writer may have been driven into a panic (only by the callback's or the handler's
+  own panic / invalid WriteHeader code — never by the middleware) -/
   panicked : Bool
   /-- when present: the complete client state is prescribed (transparent pass-through / own answer) -/
   full : Option Client
   deriving DecidableEq, Repr
 
 def spec (cfg : Cfg) (env : Env) (ops : List Op) : SpecOut :=
+  let c0 := Client.init env.server
   if env.routeFound && env.reqOK then
     if cfg.strict then
-      if respValid env ops then ⟨true, ⟨(wroteStatus ops).getD 200, written ops⟩, [], false, none⟩
-      else ⟨true, (runDirect {} (cfg.errOps .responseInvalid)).seen, [.responseInvalid],
-            (runDirect {} (cfg.errOps .responseInvalid)).panicked, none⟩
-    else ⟨true, (runDirect {} ops).seen, [], (runDirect {} ops).panicked, some (runDirect {} ops)⟩
+      -- a handler that panics never had its response validated: none of it may reach the client
+      if panics ops then ⟨true, ⟨200, []⟩, [], true, none⟩
+      else if respValid env ops then ⟨true, ⟨(handlerStatus env.server ops).getD 200, written ops⟩, [], false, none⟩
+      else ⟨true, (runDirect c0 (cfg.errOps .responseInvalid)).seen, [.responseInvalid],
+            (runDirect c0 (cfg.errOps .responseInvalid)).panicked, none⟩
+    else ⟨true, (runDirect c0 ops).seen, [], (runDirect c0 ops).panicked, some (runDirect c0 ops)⟩
   else
     let code := if env.routeFound then ErrCode.requestInvalid else ErrCode.cannotFindRoute
-    let c := runDirect {} (cfg.errOps code)
+    let c := runDirect c0 (cfg.errOps code)
     ⟨false, c.seen, [code], c.panicked, some c⟩
 
 def Meets (o : Outcome) (s : SpecOut) : Prop :=
@@ -333,7 +414,99 @@ def meetsB (o : Outcome) (s : SpecOut) : Bool :=
   decide (o.client.panicked = s.panicked) && (match s.full with | some c => decide (o.client = c) | none => true)
 
 /-- spec of the older handler: request-only gate, then transparent -/
-def vspec (encOps : ReqFail → List Op) (fail : ReqFail) (ops : List Op) : VOutcome :=
-  if fail = .none then ⟨true, runDirect {} ops, []⟩ else ⟨false, runDirect {} (encOps fail), [fail]⟩
+def vspec (encOps : ReqFail → List Op) (fail : ReqFail) (ops : List Op) (server : Bool := false) : VOutcome :=
+  if fail = .none then ⟨true, runDirect (Client.init server) ops, []⟩
+  else ⟨false, runDirect (Client.init server) (encOps fail), [fail]⟩
+
+
+/-! ### names under which the source knows what the model talks about (used by the table obligations) -/
+
+/-- which method of its http.ResponseWriter a handler call is -/
+def Op.method : Op → String
+  | .setHdr _ _ => "Header" | .delHdr _ => "Header" | .writeHeader _ => "WriteHeader" | .write _ => "Write"
+  | .flush => "Flush" | .panic => "(panic)"
+
+/-- the Go constants of the three error codes and of the HTTP status handed to ErrFunc with each -/
+def ErrCode.constName : ErrCode → String
+  | .cannotFindRoute => "ErrCodeCannotFindRoute" | .requestInvalid => "ErrCodeRequestInvalid"
+  | .responseInvalid => "ErrCodeResponseInvalid"
+
+def ErrCode.statusConst : ErrCode → String
+  | .cannotFindRoute => "http.StatusNotFound" | .requestInvalid => "http.StatusBadRequest"
+  | .responseInvalid => "http.StatusInternalServerError"
+
+/-- the converters ConvertErrors dispatches a failure kind to -/
+def ReqFail.converters : ReqFail → List String
+  | .noPath => ["convertRouteError"] | .noMethod => ["convertRouteError"]
+  | .invalid => ["convertErrInvalidRequired", "convertParseError", "convertSchemaError"]
+  | .bodySchema => ["convertSchemaError"] | .bodyMissing => ["convertErrInvalidRequired"]
+  | .bodyType => ["convertBasicRequestError", "convertParseError"]
+  | .none => [] | .security => []
+
+
+/-! ### one Validator / ValidationHandler serving a sequence of requests
+
+The property quantifies over every request a middleware instance serves, so the model is a state machine over
+request sequences: a step takes what the instance keeps between requests and the next request, and yields the
+client-visible outcome and the state handed to the following request.
+
+What `Validator` keeps between requests on this tree: nothing that a request changes. Its fields (router,
+errFunc, logFunc, strict, options) are written by NewValidator and its options before the first request; the
+closure returned by `Middleware` only reads them; the response wrapper is a fresh composite literal per request
+(`&strictResponseWrapper{w: w}` / `newWarnResponseWrapper(w)`); the file has no package-level variables. Those
+four facts are read off the source by the translator table `ValidatorState` and are `decide` obligations in
+Props/C14 — a pooled or cached wrapper, a counter or a cache in the struct shows up there. The same holds for
+`ValidationHandler` (fields written by `Load` and by the caller before serving). -/
+
+/-- one request as the middleware meets it: the verdicts of routing / request / response validation for it and
+the behaviour of the handler on it -/
+structure Req where
+  env : Env
+  ops : List Op
+
+/-- what the instance carries from one request to the next (no field: nothing) -/
+structure VState where
+  deriving DecidableEq, Repr
+
+/-- one request served by a Validator in state `st` -/
+def serve (cfg : Cfg) (st : VState) (r : Req) : VState × Outcome := (st, middleware cfg r.env r.ops)
+
+/-- a generic machine run: outcomes of a request sequence, threading the state -/
+def runSeq {σ ρ ω : Type} (step : σ → ρ → σ × ω) : σ → List ρ → List ω
+  | _, [] => []
+  | s, r :: rs => (step s r).2 :: runSeq step (step s r).1 rs
+
+/-- the client-visible outcomes of a sequence of requests through one `Validator.Middleware(h)` chain -/
+def serveSeq (cfg : Cfg) (reqs : List Req) : List Outcome := runSeq (serve cfg) {} reqs
+
+/-- a step function is history-free when its outcome does not depend on the state it is run in -/
+def HistoryFree {σ ρ ω : Type} (step : σ → ρ → σ × ω) : Prop := ∀ s1 s2 r, (step s1 r).2 = (step s2 r).2
+
+/-- one request of the older ValidationHandler: the result of validateRequest and the handler behaviour -/
+structure VReq where
+  fail : ReqFail
+  ops : List Op
+  server : Bool := false
+
+def vserve (encOps : ReqFail → List Op) (st : VState) (r : VReq) : VState × VOutcome :=
+  (st, vhandler encOps r.fail r.ops r.server)
+
+def vserveSeq (encOps : ReqFail → List Op) (reqs : List VReq) : List VOutcome := runSeq (vserve encOps) {} reqs
+
+/-- Two requests in flight at once, each against its own wrapper: a schedule says whose call comes next.
+`interleave` runs the two handlers' strict wrappers under an arbitrary schedule (true = first handler). -/
+def interleaveStrict : List Bool → (Strict × List Op) → (Strict × List Op) → Strict × Strict
+  | [], a, b => (Strict.run a.1 a.2, Strict.run b.1 b.2)
+  | true :: sch, (wa, op :: opsA), b => interleaveStrict sch (wa.step op, opsA) b
+  | true :: sch, (wa, []), b => interleaveStrict sch (wa, []) b
+  | false :: sch, a, (wb, op :: opsB) => interleaveStrict sch a (wb.step op, opsB)
+  | false :: sch, a, (wb, []) => interleaveStrict sch a (wb, [])
+
+/-- spec over a history: every request of the sequence is answered as the property prescribes for that
+request alone -/
+def MeetsSeq (cfg : Cfg) : List Req → List Outcome → Prop
+  | [], [] => True
+  | r :: rs, o :: os => Meets o (spec cfg r.env r.ops) ∧ MeetsSeq cfg rs os
+  | _, _ => False
 
 end KinModel.Middleware
